@@ -33,6 +33,9 @@ def generate(r):
     lines.append("let M = {};")
     lines.append("fn churn(k) { let n = 0; for i in k.times() { let s = 'c${i}' + 'z'; n += s.len(); } n }")
     lines.append("fn rep(s, n) { let out = ''; for i in n.times() { out = out + s; } out }")
+    # several thousand distinct strings alive at once: the intern table has to grow and re-bucket what it already holds
+    lines.append("fn flood(k) { let keep = []; for i in k.times() { keep.push('key-${i}'); } keep.len() }")
+    flooding = r.random() < 0.06
     header = len(lines)
     longs = []
     module_texts = []
@@ -59,8 +62,28 @@ def generate(r):
     for _ in range(r.randint(10, 45)):
         act = r.choice(["long", "lit", "concat", "interp", "slice", "index", "split", "chars", "num", "same", "same", "drop", "drop",
                         "eq", "eq", "eq", "mset", "mget", "mget", "churn", "lhas", "gc", "gc", "module", "file", "lindex",
-                        "mremove", "order"])
+                        "mremove", "order", "near", "flood"])
         lv = live()
+        if act == "flood":
+            if flooding:
+                flooding = False
+                lines.append("print(flood(%d));" % r.choice([4000, 8000, 9000]))
+                expect.append(lines[-1][12:16])
+            continue
+        if act == "near":
+            # two strings of the same length (well over a hundred bytes) that differ only somewhere in the middle
+            head = "".join(r.choice("abcxyz0123 ") for _ in range(r.randint(64, 100)))
+            tail = "".join(r.choice("abcxyz0123 ") for _ in range(r.randint(64, 100)))
+            width = r.randint(1, 4)
+            first = "".join(r.choice("abcd") for _ in range(width))
+            second = first
+            while second == first:
+                second = "".join(r.choice("abcd") for _ in range(width))
+            a = new_slot("%s + %s + %s" % (lit(head), lit(first), lit(tail)), head + first + tail)
+            b = new_slot(r.choice(["%s + %s", "'${%s}${%s}'"]) % (lit(head + second), lit(tail)), head + second + tail)
+            lines.append("print(%s == %s, %s.slice(%d, %d), %s.slice(%d, %d));" % (a, b, a, len(head), len(head) + width, b, len(head), len(head) + width))
+            expect.append("false %s %s" % (first, second))
+            continue
         if act == "long" and len(longs) < 3:
             # strings of several thousand characters, created twice by separate loops (and once more by doubling)
             if longs and r.random() < 0.6:
@@ -204,11 +227,22 @@ def generate(r):
     tail = ["print('#gc');", "churn(30);", "print('#gc');", "import self.late;",
             # (the main module itself never names the members: its constants would keep the name strings alive)
             "print(late.field(holder), late.method(holder), late.field(holder.bump()));"]
+    # the late module also holds module level texts of its own, in front of functions nested two and three deep (their
+    # compilation allocates while only the compiler of the module refers to those texts)
+    pool = [slots[name] for name in live()] + dead
+    mark = r.choice(pool) if pool else "seed_text"
+    cut = r.randint(0, len(mark))
+    probe_slot = new_slot("%s + %s" % (lit(mark[:cut]), lit(mark[cut:])), mark)
+    tail.append("print(late.mark == %s, late.marks.has(%s), late.label());" % (probe_slot, probe_slot))
     lines += tail
-    expect += ["#gc", "#gc", "%d %d %d" % (value, value + 1, value + 10)]
+    expect += ["#gc", "#gc", "%d %d %d" % (value, value + 1, value + 10), "true true %s!" % mark]
     files = {workloads.MAIN: "\n".join(lines) + "\n",
              "/sim/strmod.lay": "\n".join(module_texts + ["export let loaded = true;"]) + "\n",
-             "/sim/late.lay": "export fn field(o) { o.%s }\nexport fn method(o) { o.%s() }\n" % (field, method)}
+             "/sim/late.lay": ("export let mark = %s;\nexport let marks = [%s, 'other'];\n"
+                               "export fn field(o) { let get = || o.%s; get() }\n"
+                               "export fn method(o) { let outer = || { let inner = || o.%s(); inner() }; outer() }\n"
+                               "export fn label() { let deco = |t| { let bang = || t + '!'; bang() }; deco(mark) }\n") % (
+                                   lit(mark), lit(mark), field, method)}
     for path, t in file_texts:
         files[path] = t
     return {"name": "strings", "main": workloads.MAIN, "files": files, "lines": lines, "header": header}, expect
@@ -240,6 +274,9 @@ class C09(Check):
         rng = core.rng_for(ctx.seed, "c09", index)
         program, expect = generate(rng)
         style = rng.choice(["markers", "markers", "markers+noise", "random"])
+        if "print(flood(" in program["files"][program["main"]]:
+            # (thousands of live strings: collections only at the markers keep the run short)
+            style = "markers"
         return {"program": program, "expect": expect, "style": style, "seed": rng.getrandbits(48),
                 "arena": schedules.random_policy(rng, 0.7), "gc": None}
 
